@@ -6,7 +6,7 @@
   THE FRAGMENT (`SInFragment`): programs over global `unsigned char` variables and constants built from
       v = a | v = a ∘ b | v ∘= a | v++ | v--                      ∘ ∈ {+, −, &, |, ^}     (stage 1)
       { S… } | if (c) S | if (c) S else S | while (c) S | do S while (c); | for (F; c; F) S   (stage 2)
-      c ::= a ⋈ b | v | !v     ⋈ ∈ {==, !=, <, >=, >, <=}; no ordered comparison with literal 0, not two constants
+      c ::= a ⋈ b | v | !v | c && c | c || c | !(c)     ⋈ ∈ {==, !=, <, >=, >, <=}; no ordered comparison with literal 0, not two constants
   nested to any depth, any length.
 
   PROVED for EVERY program of the fragment, every layout, every machine state, every generator state
@@ -26,7 +26,7 @@
    * `adc_after_clc`, `sbc_after_sec`, `negate_means_not`, `mirror_means_swap`: the arithmetic and
      operator-table facts the templates rest on.
   NOT covered by these theorems (covered by co-execution against CV.CSem in the check, partial):
-  nested expressions, 16-bit values, arrays, X/Y, && || in conditions, switch, break/continue, calls,
+  nested expressions, 16-bit values, arrays, X/Y, switch, break/continue, calls,
   signed types; optimisation levels above -O0 (C02's subject).
 -/
 import CV.Proofs.GenStructMain
@@ -79,7 +79,7 @@ theorem struct_program_correct (L : Layout) (st : SStmt) (fuel : Nat) (m m' : Me
 /-- every label defined by generated code is new: allocated between the generator states before and
     after — so no label of a statement's code occurs in code generated earlier -/
 theorem fresh_labels (st : SStmt) (g : GState) :
-    ∀ l ∈ labels (gen g st).1, g.ctr l.kind.ctr < l.n ∧ l.n ≤ (gen g st).2.ctr l.kind.ctr :=
+    ∀ l ∈ labels (gen g st).1, g.ctr l.kind.ctr < l.idx ∧ l.idx ≤ (gen g st).2.ctr l.kind.ctr :=
   (gen_fresh st g).2
 
 /-- the operator tables of `generate_condition_ex` mean what their names say -/
